@@ -40,6 +40,10 @@ Definition update_state (st : state) (b : Z * list oq) : state :=
   | _ => {| obs := {| t0 := t0 (obs st); ys := ys (obs st) ++ snd b |};
             cutoff := fst b + zlen (snd b) - 1 |}
   end.
+(* update_predict(y_new, cv): the data the moving-cutoff loop has shown to the forecaster (`seen`)
+   are remembered, but the cutoff is put back where it was (detached cutoff) *)
+Definition update_predict_state (st : state) (seen : list oq) : state :=
+  {| obs := {| t0 := t0 (obs st); ys := ys (obs st) ++ seen |}; cutoff := cutoff st |}.
 Definition run_state (s : series) (ups : list (Z * list oq)) : state :=
   fold_left update_state ups (fit_state s).
 (* the cutoff after fit and after each update *)
